@@ -185,6 +185,15 @@ def target_skygrid(case, rng):
         {"id": "gmrf", "type": "GMRF", "x": "field", "precision": P("precision", [float(gm.loguniform(rng, 0.5, 5))])},
         {"id": "prior.precision", "type": "Distribution", "distribution": "torch.distributions.Gamma", "x": "precision", "parameters": {"concentration": 1.5, "rate": 1.0}},
         {"id": "joint", "type": "JointDistributionModel", "distributions": ["skygrid", "gmrf", "prior.precision"]}]
+    viewed = case["seed"] % 4 == 1
+    if viewed:
+        # the field is a view of a longer parameter (its first G entries)
+        fld = spec[len(tree_spec)]["x"]
+        spec[len(tree_spec)]["x"] = "field.view"
+        spec.insert(len(tree_spec), {"id": "field.view", "type": "ViewParameter", "parameter": P("field", list(fld["tensor"]) + [0.3, -0.2]), "indices": "0:%d" % G})
+        for e_ in spec:
+            if isinstance(e_, dict) and e_.get("id") == "gmrf":
+                e_["x"] = "field.view"
     unres = case["seed"] % 2 == 0
     if unres:
         # the chain torchtree-cli writes: the precision is exp(u) of a free parameter u and the target carries the Jacobian of that transform
@@ -197,7 +206,7 @@ def target_skygrid(case, rng):
            (op("op.slide.precision", "SlidingWindowOperator", ["precision.unres"], rng, case["adapt"], width=float(rng.uniform(0.3, 1.5))) if unres else
             op("op.scale.precision", "ScalerOperator", ["precision"], rng, case["adapt"], scaler=float(rng.uniform(0.4, 0.9)))),
            op("op.slide.field", "SlidingWindowOperator", ["field"], rng, case["adapt"], width=float(gm.loguniform(rng, 0.2, 2)))]
-    meta = {"sampling": s, "coalescent": c, "cutoff": cutoff, "G": G}
+    meta = {"sampling": s, "coalescent": c, "cutoff": cutoff, "G": G, "viewed": viewed}
     return spec, ops, ["field", "precision.unres" if unres else "precision"], meta
 
 
@@ -795,6 +804,8 @@ def independent_hastings(r, tname, ss, cnt, where, detail, V, torch):
         unres = "precision" not in r["before"]
         g0, t0 = r["before"]["field"].numpy(), float(r["before"]["precision"]) if not unres else math.exp(float(r["before"]["precision.unres"]))
         g1, t1 = r["proposed"]["field"].numpy(), float(r["proposed"]["precision"]) if not unres else math.exp(float(r["proposed"]["precision.unres"]))
+        if len(g0) > len(ss):  # the field is a view of the first entries of a longer parameter
+            g0, g1 = g0[: len(ss)], g1[: len(ss)]
         sc = r["scaler"]
         ratio = t1 / t0
         if not (1 / sc * (1 - 1e-9) <= ratio <= sc * (1 + 1e-9)):
